@@ -249,8 +249,31 @@ class PStr(object):
     def __hash__(self):
         return id(self)
 
+    def _first(self, sub, a):
+        """position of the first occurrence of a one-character string (forks on every position), or -1"""
+        if a or not isinstance(sub, str) or len(sub) != 1:
+            raise Unsupported('find/index/in with %r on a symbolic string' % (sub,))
+        for k, c in enumerate(self.chars):
+            if mkbool(ceq(c, ord(sub))):
+                return k
+        return -1
+
     def find(self, sub, *a):
-        raise Unsupported('find on a symbolic string')
+        return self._first(sub, a)
+
+    def index(self, sub, *a):
+        k = self._first(sub, a)
+        if k < 0:
+            raise ValueError('substring not found')
+        return k
+
+    def __contains__(self, sub):
+        if isinstance(sub, str) and len(sub) == 1:
+            return mkbool(Or(*[ceq(c, ord(sub)) for c in self.chars]))
+        raise Unsupported('`in` with %r on a symbolic string' % (sub,))
+
+    def count(self, sub, *a):
+        raise Unsupported('count on a symbolic string')
 
     def replace(self, old, new, *a):
         if a or not isinstance(old, str) or len(old) != 1 or not isinstance(new, str):
